@@ -149,6 +149,8 @@ def _run_one(args: Tuple[str, str, str]) -> Tuple[str, List[str], Optional[str]]
         try:
             chk = Check(p, repo, "quick")
             _MODS[p].run(chk)
+            from .rules.wellformed import check as _wf
+            _wf(chk)
             v = [x for x in chk.violations() if (p, x.rule, x.construct) not in known]
             if v:
                 caught.append(p)
